@@ -723,7 +723,7 @@ void gen_c13(Gen &g) {
   }
   HistCfg cfg;
   cfg.w_asm = 55;
-  cfg.w_count = 3;
+  cfg.w_count = 7;
   cfg.w_chunk = 14;
   cfg.w_offset = 14;
   cfg.w_setter = 0;
